@@ -164,7 +164,7 @@ var specs = map[string]spec{
 		Rule:      "states = distinct (Go value, options) conversions + distinct Soy values checked for the laws; transitions = conversions + per-value law rows (counter pairs counts the Equals pairs); non-trivial = conversion returned a value",
 		Bounds: map[string]string{
 			"quick":    "65 leaves (incl. integers beyond 2^53 next to the floats they round to) x 8 wrappers, every third level-1 value wrapped again x 5, 18 typed containers; 2 option settings; all ordered pairs of the distinct resulting values",
-			"thorough": "same",
+			"thorough": "every level-1 value wrapped again under all 8 wrappers (about 5300 values, all ordered pairs of the distinct results)",
 		},
 		Assumptions: commonAssumptions, Plain: true, QuickStride: 1, ThoroughStride: 1, QuickDeadline: 420, ThoroughDeadline: 3000,
 	},
